@@ -1,4 +1,1317 @@
-//! placeholder until the fast-forward half is delivered
-pub fn case(_ctx: &crate::common::Ctx, _rng: &mut vcore::Rng, rep: &mut vcore::Report, _thorough: bool) {
-    rep.count("ff:not-built-yet");
+//! C19, fast-forward half — `fast_forward_singleton` rewrites a singleton spend onto a new
+//! coin only when the input is a genuine singleton spend of the stated coin with matching
+//! lineage, changes nothing but the three lineage/amount atoms, and the rewritten spend is a
+//! valid spend of the new coin that creates the same coins.
+//!
+//! Everything the oracle knows is computed on the model side: the scenario is an `Sx` tree
+//! (real top-layer puzzle bytes curried by hand), hashes are `Sx::tree_hash` / `curry_hash`
+//! below, coin ids are sha256(parent ‖ puzzle hash ‖ minimal amount), validity of a spend is
+//! clvmr (trusted interpreter) + `vcore::conditions::evaluate`. The function under test is
+//! never used to compute an expectation.
+//!
+//! Verdict rules (no false alarms):
+//!   * `Ok`  ⇒ `genuine` must hold (else `c19-ff-accepts-non-genuine:<kind>`),
+//!   * `genuine` and canonically shaped (exact 3-element solution and proof, minimal
+//!     integers) ⇒ `Ok` (else `c19-ff-rejects-genuine:<error>`); genuine inputs of a looser
+//!     shape (e.g. trailing solution fields) may be refused — refusing is always safe,
+//!   * on every `Ok` for a genuine input whose original spend validates: solution diff,
+//!     re-execution against the new coin, created coins.
+
+use crate::common::Ctx;
+use chia_consensus::fast_forward::fast_forward_singleton;
+use chia_protocol::{Bytes32, Coin, CoinSpend};
+use chia_puzzles::{SINGLETON_LAUNCHER_HASH, SINGLETON_TOP_LAYER_V1_1, SINGLETON_TOP_LAYER_V1_1_HASH};
+use chia_traits::Streamable;
+use clvmr::chia_dialect::{ChiaDialect, ClvmFlags};
+use clvmr::reduction::Reduction;
+use clvmr::run_program::run_program;
+use clvmr::Allocator;
+use serde_json::{json, Value};
+use vcore::conditions::{evaluate, MCoin, MFlags, MVisitor, Verdict, ELIGIBLE_FOR_FF};
+use vcore::ints::{classify_uint, minimal_be_u64, UintClass};
+use vcore::report::guarded;
+use vcore::sx::{Repr, Sx};
+use vcore::{hx, sha256, Report, Rng};
+
+type H = [u8; 32];
+
+/// Judge inputs whose integers carry a redundant leading zero (kinds `*-leading-zero`). The
+/// puzzle and the condition rules read the bytes as they are, so such a spend does not validate
+/// against `coin`; the predicate calls it non-genuine. On the pinned tree the function decodes
+/// the integers by value and returns `Ok` (signatures
+/// `c19-ff-accepts-non-genuine:{solution-amount,lineage-parent-amount}-leading-zero`).
+const JUDGE_NONCANONICAL_INTS: bool = true;
+
+/// Judge genuine inputs carrying more than the fields the puzzle reads (`loose:*`). Refusing
+/// them would be fine; accepting them is judged like every other `Ok`. On the pinned tree they
+/// are accepted and re-encoded without the extra fields (signature
+/// `c19-ff-solution-diff-outside-permitted-fields:trailing-fields-dropped`).
+const JUDGE_LOOSE_SHAPES: bool = true;
+
+// ---------------------------------------------------------------------------------------
+// model hashes
+
+fn th_atom(b: &[u8]) -> H {
+    sha256(&[&[1u8], b])
+}
+
+fn th_pair(l: &H, r: &H) -> H {
+    sha256(&[&[2u8], l, r])
+}
+
+/// tree hash of `(a (q . MOD) (c (q . A1) (c (q . A2) … 1)))` from the hashes of MOD and the Ai
+fn curry_hash(mod_hash: &H, arg_hashes: &[H]) -> H {
+    let nil = th_atom(&[]);
+    let q = th_atom(&[1]);
+    let mut rest = th_atom(&[1]);
+    for a in arg_hashes.iter().rev() {
+        let quoted = th_pair(&q, a);
+        rest = th_pair(&th_atom(&[4]), &th_pair(&quoted, &th_pair(&rest, &nil)));
+    }
+    th_pair(&th_atom(&[2]), &th_pair(&th_pair(&q, mod_hash), &th_pair(&rest, &nil)))
+}
+
+/// `(a (q . mod) (c (q . arg1) (c (q . arg2) … 1)))` as a tree
+fn curry(mod_sx: &Sx, args: &[Sx]) -> Sx {
+    let mut rest = Sx::atom(&[1]);
+    for a in args.iter().rev() {
+        rest = Sx::list(&[Sx::atom(&[4]), Sx::pair(Sx::atom(&[1]), a.clone()), rest]);
+    }
+    Sx::list(&[Sx::atom(&[2]), Sx::pair(Sx::atom(&[1]), mod_sx.clone()), rest])
+}
+
+fn is_byte(x: &Sx, b: u8) -> bool {
+    x.as_atom().is_some_and(|a| a.len() == 1 && a[0] == b)
+}
+
+/// inverse of `curry`, exact shape only
+fn uncurry(p: &Sx) -> Option<(&Sx, Vec<&Sx>)> {
+    let (items, term) = p.unlist();
+    if items.len() != 3 || !term.is_nil() || !is_byte(items[0], 2) {
+        return None;
+    }
+    let (q, m) = items[1].as_pair()?;
+    if !is_byte(q, 1) {
+        return None;
+    }
+    let mut args = vec![];
+    let mut cur = items[2];
+    loop {
+        if cur.is_atom() {
+            if is_byte(cur, 1) {
+                break;
+            }
+            return None;
+        }
+        let (it, term) = cur.unlist();
+        if it.len() != 3 || !term.is_nil() || !is_byte(it[0], 4) {
+            return None;
+        }
+        let (q, a) = it[1].as_pair()?;
+        if !is_byte(q, 1) {
+            return None;
+        }
+        args.push(a);
+        cur = it[2];
+    }
+    Some((m, args))
+}
+
+thread_local! {
+    /// the real top-layer puzzle as a model tree, with its model tree hash
+    static SINGLETON_MOD: (Sx, H) = {
+        let mut a = Allocator::new();
+        let n = clvmr::serde::node_from_bytes(&mut a, &SINGLETON_TOP_LAYER_V1_1).expect("singleton mod bytes");
+        let sx = Sx::from_node(&a, n);
+        let h = sx.tree_hash();
+        (sx, h)
+    };
+}
+
+fn singleton_mod() -> (Sx, H) {
+    SINGLETON_MOD.with(Clone::clone)
+}
+
+/// model tree hash of a program; the (large, constant) singleton mod is recognised by
+/// structural equality and its hash taken from the cache
+fn hash_of_mod(m: &Sx) -> H {
+    SINGLETON_MOD.with(|(sx, h)| if sx == m { *h } else { m.tree_hash() })
+}
+
+// ---------------------------------------------------------------------------------------
+// model coins and scenarios
+
+#[derive(Clone, Debug, PartialEq, Eq)]
+struct MC {
+    parent: H,
+    ph: H,
+    amount: u64,
+}
+
+impl MC {
+    fn id(&self) -> H {
+        sha256(&[&self.parent, &self.ph, &minimal_be_u64(self.amount)])
+    }
+    fn real(&self) -> Coin {
+        Coin::new(Bytes32::new(self.parent), Bytes32::new(self.ph), self.amount)
+    }
+    fn json(&self) -> Value {
+        json!({"parent": hx(&self.parent), "puzzle_hash": hx(&self.ph), "amount": self.amount})
+    }
+}
+
+#[derive(Clone, Debug)]
+struct Scn {
+    puzzle: Sx,
+    solution: Sx,
+    coin: MC,
+    new_coin: MC,
+    new_parent: MC,
+}
+
+impl Scn {
+    fn json(&self) -> Value {
+        json!({
+            "puzzle_hex": hx(&self.puzzle.serialize()),
+            "solution_hex": hx(&self.solution.serialize()),
+            "solution": self.solution.show(),
+            "coin": self.coin.json(),
+            "new_coin": self.new_coin.json(),
+            "new_parent": self.new_parent.json(),
+        })
+    }
+}
+
+/// what the model reads off a puzzle
+struct Facts {
+    puzzle_hash: H,
+    /// `Some` iff the puzzle has exactly the shape of a curried program
+    curried: Option<CurriedFacts>,
+}
+
+struct CurriedFacts {
+    mod_hash: H,
+    nargs: usize,
+    /// the three 32-byte fields of `(A . (B . C))`, if the first argument has that shape
+    struct_fields: Option<(H, H, H)>,
+    struct_hash: H,
+    inner_hash: H,
+}
+
+fn arr32(x: &Sx) -> Option<H> {
+    x.as_atom().and_then(|b| <[u8; 32]>::try_from(b).ok())
+}
+
+fn facts(p: &Sx) -> Facts {
+    match uncurry(p) {
+        None => Facts { puzzle_hash: p.tree_hash(), curried: None },
+        Some((m, args)) => {
+            let mod_hash = hash_of_mod(m);
+            let hashes: Vec<H> = args.iter().map(|a| a.tree_hash()).collect();
+            let puzzle_hash = curry_hash(&mod_hash, &hashes);
+            let struct_fields = args.first().and_then(|s| {
+                let (a, bc) = s.as_pair()?;
+                let (b, c) = bc.as_pair()?;
+                Some((arr32(a)?, arr32(b)?, arr32(c)?))
+            });
+            Facts {
+                puzzle_hash,
+                curried: Some(CurriedFacts {
+                    mod_hash,
+                    nargs: args.len(),
+                    struct_fields,
+                    struct_hash: hashes.first().copied().unwrap_or([0; 32]),
+                    inner_hash: hashes.get(1).copied().unwrap_or([0; 32]),
+                }),
+            }
+        }
+    }
+}
+
+/// The independent predicate: `None` iff this is a genuine, fast-forwardable singleton spend
+/// of `coin` with matching lineage and a well-formed rebase target; otherwise the first
+/// requirement that fails. Integers are judged at the byte level, the way the puzzle itself
+/// (sha256 over the atoms of the solution) and the condition rules see them.
+fn not_genuine(s: &Scn, f: &Facts) -> Option<&'static str> {
+    if s.coin.amount & 1 == 0 {
+        return Some("coin-amount-even");
+    }
+    if s.new_parent.amount & 1 == 0 {
+        return Some("new-parent-amount-even");
+    }
+    if s.new_coin.amount & 1 == 0 {
+        return Some("new-coin-amount-even");
+    }
+    let Some(c) = &f.curried else {
+        return Some("puzzle-not-curried");
+    };
+    if c.nargs != 2 {
+        return Some("curried-arg-count");
+    }
+    if c.mod_hash != SINGLETON_TOP_LAYER_V1_1_HASH {
+        return Some("mod-hash");
+    }
+    let Some((struct_mod_hash, _launcher_id, _launcher_ph)) = c.struct_fields else {
+        return Some("struct-shape");
+    };
+    if struct_mod_hash != SINGLETON_TOP_LAYER_V1_1_HASH {
+        return Some("struct-mod-hash");
+    }
+    if s.coin.ph != f.puzzle_hash {
+        return Some("coin-puzzle-hash");
+    }
+    if s.new_parent.ph != f.puzzle_hash {
+        return Some("new-parent-puzzle-hash");
+    }
+    if s.new_coin.ph != f.puzzle_hash {
+        return Some("new-coin-puzzle-hash");
+    }
+    // solution = (lineage_proof my_amount inner_solution . _)
+    let (sol, _) = s.solution.unlist();
+    if sol.len() < 3 {
+        return Some("solution-shape");
+    }
+    // a lineage proof has a third element, an eve proof has not
+    let (proof, _) = sol[0].unlist();
+    if proof.len() < 3 {
+        return Some("proof-not-lineage");
+    }
+    let (Some(ppci), Some(iph), Some(pamount)) = (arr32(proof[0]), arr32(proof[1]), proof[2].as_atom()) else {
+        return Some("proof-field-shape");
+    };
+    if sol[1].as_atom() != Some(&minimal_be_u64(s.coin.amount)[..]) {
+        return Some("solution-amount");
+    }
+    // the parent the proof describes: a singleton of the same struct with inner puzzle hash `iph`
+    let parent_ph = curry_hash(&struct_mod_hash, &[c.struct_hash, iph]);
+    let parent_id = sha256(&[&ppci, &parent_ph, pamount]);
+    if parent_id != s.coin.parent {
+        return Some("lineage-parent-id");
+    }
+    // fast-forward is only defined while the inner puzzle does not change
+    if iph != c.inner_hash {
+        return Some("inner-puzzle-hash");
+    }
+    if s.new_coin.parent != s.new_parent.id() {
+        return Some("new-coin-parent");
+    }
+    None
+}
+
+/// exact shape a wallet produces: 3-element solution, 3-element proof, minimal integers
+fn canonical(s: &Scn) -> bool {
+    let (sol, term) = s.solution.unlist();
+    if sol.len() != 3 || !term.is_nil() {
+        return false;
+    }
+    let (proof, pterm) = sol[0].unlist();
+    if proof.len() != 3 || !pterm.is_nil() {
+        return false;
+    }
+    let min_u64 = |x: &Sx| x.as_atom().is_some_and(|b| matches!(classify_uint(b, 8), UintClass::Ok(_)));
+    min_u64(proof[2]) && min_u64(sol[1])
+}
+
+// ---------------------------------------------------------------------------------------
+// running a spend: clvmr + the reference condition model
+
+enum Spend {
+    RunFailed(String),
+    Rejected(String),
+    /// created coins, additions + reserved fee, ELIGIBLE_FOR_FF as the mempool rules see it
+    Accepted { created: Vec<MCoin>, need: u128, ff_flag: bool, conditions: Sx },
+}
+
+fn run_spend(ctx: &Ctx, puzzle: &Sx, solution: &Sx, coin: &MC) -> Spend {
+    let mut a = Allocator::new();
+    let p = puzzle.to_node_plain(&mut a);
+    let s = solution.to_node_plain(&mut a);
+    let dialect = ChiaDialect::new(ClvmFlags::empty());
+    let conds = match run_program(&mut a, &dialect, p, s, 11_000_000_000) {
+        Ok(Reduction(_, out)) => Sx::from_node(&a, out),
+        Err(e) => return Spend::RunFailed(format!("{e:?}")),
+    };
+    let spend = Sx::list(&[
+        Sx::atom(&coin.parent),
+        Sx::atom(&coin.ph),
+        Sx::atom(&minimal_be_u64(coin.amount)),
+        conds.clone(),
+    ]);
+    let output = Sx::list(&[Sx::list(&[spend])]);
+    let key_ok = |pk: &[u8]| ctx.key_ok(pk);
+    match evaluate(&output, MFlags::default(), MVisitor::Mempool, &ctx.mconsts, u64::MAX, &key_ok) {
+        Verdict::Reject(r) => Spend::Rejected(r),
+        Verdict::Accept(b) => Spend::Accepted {
+            created: b.spends[0].create_coin.clone(),
+            need: b.addition_amount + u128::from(b.reserve_fee),
+            ff_flag: b.spends[0].flags & ELIGIBLE_FOR_FF != 0,
+            conditions: conds,
+        },
+    }
+}
+
+// ---------------------------------------------------------------------------------------
+// the call under observation
+
+fn error_name(e: &chia_consensus::error::Error) -> String {
+    let s = format!("{e:?}");
+    s.split(|c: char| !c.is_ascii_alphanumeric()).next().unwrap_or("").to_string()
+}
+
+enum Got {
+    Ok(Sx),
+    Err(String),
+    Panic(String),
+}
+
+fn call_ff(rng: &mut Rng, s: &Scn) -> (Got, String) {
+    let reprs = [Repr::Plain, Repr::Plain, Repr::Substr, Repr::Concat, Repr::Mixed];
+    let rp = *rng.pick(&reprs);
+    let rs = *rng.pick(&reprs);
+    let mut rr = Rng::new(rng.u64());
+    let (coin, new_coin, new_parent) = (s.coin.real(), s.new_coin.real(), s.new_parent.real());
+    let r = guarded(|| {
+        let mut a = Allocator::new();
+        let p = s.puzzle.to_node(&mut a, rp, &mut rr);
+        let sol = s.solution.to_node(&mut a, rs, &mut rr);
+        match fast_forward_singleton(&mut a, p, sol, &coin, &new_coin, &new_parent) {
+            Ok(n) => Got::Ok(Sx::from_node(&a, n)),
+            Err(e) => Got::Err(error_name(&e)),
+        }
+    });
+    let got = match r {
+        Ok(g) => g,
+        Err(p) => Got::Panic(format!("{} at {}", p.message, p.location)),
+    };
+    (got, format!("{rp:?}/{rs:?}"))
+}
+
+/// positions (as f/r paths) at which two trees differ; a differing sub-tree is reported once
+fn diff_paths(a: &Sx, b: &Sx, path: &mut String, out: &mut Vec<String>) {
+    match (a, b) {
+        (Sx::Pair(al, ar), Sx::Pair(bl, br)) => {
+            path.push('f');
+            diff_paths(al, bl, path, out);
+            path.pop();
+            path.push('r');
+            diff_paths(ar, br, path, out);
+            path.pop();
+        }
+        (Sx::Atom(x), Sx::Atom(y)) if x == y => {}
+        _ => out.push(path.clone()),
+    }
+}
+
+/// element `path` of a tree
+fn at<'a>(x: &'a Sx, path: &str) -> Option<&'a Sx> {
+    let mut cur = x;
+    for c in path.chars() {
+        let (f, r) = cur.as_pair()?;
+        cur = if c == 'f' { f } else { r };
+    }
+    Some(cur)
+}
+
+const P_PARENT_PARENT: &str = "ff"; // (f (f solution))
+const P_PARENT_AMOUNT: &str = "frrf"; // (f (r (r (f solution))))
+const P_AMOUNT: &str = "rf"; // (f (r solution))
+
+fn byte_len(v: u64) -> usize {
+    minimal_be_u64(v).len()
+}
+
+/// Judge one call. `kind` names how the input was made (for counters and signatures).
+/// Returns the rewritten solution when the call was a judged, fully checked genuine success.
+fn judge(ctx: &Ctx, rng: &mut Rng, rep: &mut Report, s: &Scn, kind: &str, base_case: bool) -> Option<Sx> {
+    let f = facts(&s.puzzle);
+    let reason = not_genuine(s, &f);
+    let canon = canonical(s);
+    let (got, repr) = call_ff(rng, s);
+    rep.eval();
+    let witness = |extra: Value| json!({"kind": kind, "repr": repr, "input": s.json(), "extra": extra});
+    let new_solution = match (&got, reason) {
+        (Got::Panic(m), _) => {
+            rep.violation("c19-ff-panic", &format!("fast_forward_singleton panicked: {m}"), witness(json!(null)));
+            return None;
+        }
+        (Got::Ok(ns), Some(r)) => {
+            // combinations are keyed on the violated requirement, single corruptions on their name
+            let k = if kind.starts_with("combo") { format!("combo/{r}") } else { kind.to_string() };
+            rep.violation(
+                &format!("c19-ff-accepts-non-genuine:{k}"),
+                &format!("fast_forward_singleton returned Ok although the input is not genuine ({r})"),
+                witness(json!({"failed_requirement": r, "new_solution": ns.show()})),
+            );
+            return None;
+        }
+        (Got::Err(e), Some(r)) => {
+            rep.count(&format!("refusal:{kind}"));
+            rep.count("refused-non-genuine");
+            rep.cell(&format!("refuse:{kind}:{r}:{e}"));
+            return None;
+        }
+        (Got::Err(e), None) => {
+            if canon {
+                rep.violation(
+                    &format!("c19-ff-rejects-genuine:{e}"),
+                    &format!("genuine singleton spend with matching lineage refused with {e}"),
+                    witness(json!(null)),
+                );
+            } else {
+                rep.count("genuine-noncanonical-shape-refused");
+                rep.cell(&format!("loose-refused:{kind}:{e}"));
+            }
+            return None;
+        }
+        (Got::Ok(ns), None) => ns,
+    };
+    rep.count("genuine_ok");
+    rep.count(&format!("genuine_ok:{kind}"));
+    if !canon {
+        rep.count("genuine-noncanonical-shape-accepted");
+    }
+    rep.cell(&format!("ok:{kind}:{repr}"));
+    rep.cell(&format!(
+        "amt:{}:{}:{}",
+        byte_len(s.coin.amount),
+        byte_len(s.new_parent.amount),
+        byte_len(s.new_coin.amount)
+    ));
+    rep.count(&format!("amount-class:coin:{}B", byte_len(s.coin.amount)));
+    rep.count(&format!("amount-class:new-parent:{}B", byte_len(s.new_parent.amount)));
+    rep.count(&format!("amount-class:new-coin:{}B", byte_len(s.new_coin.amount)));
+
+    let mut clean = true;
+
+    // (a) the rewritten solution differs only at the three permitted atoms, which carry the new values
+    let mut paths = vec![];
+    diff_paths(&s.solution, new_solution, &mut String::new(), &mut paths);
+    let outside: Vec<&String> =
+        paths.iter().filter(|p| ![P_PARENT_PARENT, P_PARENT_AMOUNT, P_AMOUNT].contains(&p.as_str())).collect();
+    if !outside.is_empty() {
+        clean = false;
+        // losing what follows the fields the puzzle reads is a different behaviour from altering a field
+        let only_tails = outside.iter().all(|p| ["rrr", "frrr"].contains(&p.as_str()));
+        let sig = if only_tails {
+            "c19-ff-solution-diff-outside-permitted-fields:trailing-fields-dropped"
+        } else {
+            "c19-ff-solution-diff-outside-permitted-fields"
+        };
+        rep.violation(
+            sig,
+            &format!("rewritten solution differs from the original at {outside:?} (f/r paths)"),
+            witness(json!({"new_solution": new_solution.show(), "paths": outside})),
+        );
+    }
+    let want = [
+        (P_PARENT_PARENT, "parent_parent_coin_info", s.new_parent.parent.to_vec()),
+        (P_PARENT_AMOUNT, "parent_amount", minimal_be_u64(s.new_parent.amount)),
+        (P_AMOUNT, "amount", minimal_be_u64(s.new_coin.amount)),
+    ];
+    for (path, name, value) in &want {
+        if at(new_solution, path).and_then(Sx::as_atom) != Some(&value[..]) {
+            clean = false;
+            rep.violation(
+                &format!("c19-ff-rewritten-field-wrong:{name}"),
+                &format!("rewritten solution: {name} is not the new coin's value {}", hx(value)),
+                witness(json!({"new_solution": new_solution.show()})),
+            );
+        }
+    }
+    rep.count("solution-diffed");
+
+    // (b) precondition of the remaining checks: the original is a valid spend of `coin`
+    let (created, need, conds) = match run_spend(ctx, &s.puzzle, &s.solution, &s.coin) {
+        Spend::Accepted { created, need, ff_flag, conditions } => {
+            if ff_flag {
+                rep.count("original-spend-ff-eligible-by-mempool-rules");
+            }
+            (created, need, conditions)
+        }
+        Spend::RunFailed(e) | Spend::Rejected(e) => {
+            if base_case {
+                rep.count("skipped:scenario-invalid");
+                rep.harness_error(&format!("generated singleton scenario is not a valid spend: {e}"));
+            } else {
+                rep.count("skipped:original-spend-invalid");
+            }
+            return None;
+        }
+    };
+    rep.count("original-spend-valid");
+
+    // (c) the rewritten spend runs and is a valid spend of the new coin
+    match run_spend(ctx, &s.puzzle, new_solution, &s.new_coin) {
+        Spend::RunFailed(e) => {
+            clean = false;
+            rep.violation(
+                "c19-ff-new-solution-fails-to-run",
+                &format!("the puzzle fails with the rewritten solution: {e}"),
+                witness(json!({"new_solution": new_solution.show()})),
+            );
+        }
+        Spend::Rejected(e) => {
+            if need > u128::from(s.new_coin.amount) {
+                // the unchanged outputs exceed the new coin's value: not a self-assertion, not judged
+                rep.count("skipped:new-coin-smaller-than-outputs");
+                clean = false;
+            } else {
+                clean = false;
+                rep.violation(
+                    "c19-ff-new-spend-invalid-for-new-coin",
+                    &format!("rewritten spend is not a valid spend of the new coin: {e}"),
+                    witness(json!({"new_solution": new_solution.show()})),
+                );
+            }
+        }
+        Spend::Accepted { created: created2, conditions: conds2, .. } => {
+            rep.count("new-spend-valid");
+            // (d) same coins created
+            rep.count("created-coins-compared");
+            rep.add("created-coins", created.len() as u64);
+            if created != created2 {
+                clean = false;
+                rep.violation(
+                    "c19-ff-created-coins-differ",
+                    "rewritten spend creates different coins than the original",
+                    witness(json!({"original": format!("{created:?}"), "rewritten": format!("{created2:?}")})),
+                );
+            }
+            // observation only: which emitted conditions change at all
+            let mut cp = vec![];
+            diff_paths(&conds, &conds2, &mut String::new(), &mut cp);
+            // ((73 my_amount) (71 parent_id) . morphed inner conditions)
+            if cp.iter().all(|p| p == "frf" || p == "rfrf") {
+                rep.count("conditions-differ-only-in-self-assertions");
+            } else {
+                rep.count("conditions-differ-elsewhere");
+            }
+            if rep.want_sample() && base_case {
+                rep.sample(json!({
+                    "scenario": s.json(),
+                    "new_solution": new_solution.show(),
+                    "created": format!("{created:?}"),
+                    "conditions_new": conds2.show(),
+                }));
+            }
+        }
+    }
+    if clean {
+        rep.count("genuine_ok_fully_checked");
+        Some(new_solution.clone())
+    } else {
+        None
+    }
+}
+
+// ---------------------------------------------------------------------------------------
+// scenario generation
+
+const AMOUNTS: [u64; 18] = [
+    1,
+    3,
+    0x7f,
+    0x81,
+    0xff,
+    0x101,
+    0x7fff,
+    0x8001,
+    0xffff,
+    0x1_0001,
+    0x7f_ffff,
+    0x80_0001,
+    0xffff_ffff,
+    0x1_0000_0001,
+    0x7fff_ffff_ffff_ffff,
+    0x8000_0000_0000_0001,
+    0xffff_ffff_ffff_fffd,
+    u64::MAX,
+];
+
+fn odd_amount(rng: &mut Rng) -> u64 {
+    if rng.chance(3, 5) {
+        *rng.pick(&AMOUNTS)
+    } else {
+        (rng.u64() >> (8 * rng.below(8))) | 1
+    }
+}
+
+fn other_odd(rng: &mut Rng, not: u64) -> u64 {
+    loop {
+        let v = match rng.below(3) {
+            0 => not.wrapping_add(2) | 1,
+            1 => not.wrapping_sub(2) | 1,
+            _ => odd_amount(rng),
+        };
+        if v != not {
+            return v;
+        }
+    }
+}
+
+fn flip_bit(rng: &mut Rng, h: &H) -> H {
+    let mut r = *h;
+    r[rng.usize(32)] ^= 1 << rng.below(8);
+    r
+}
+
+/// `lo + [0, span)` random bytes
+fn rand_bytes(rng: &mut Rng, lo: usize, span: usize) -> Vec<u8> {
+    let n = lo + rng.usize(span);
+    rng.bytes(n)
+}
+
+fn junk(rng: &mut Rng) -> Sx {
+    match rng.below(4) {
+        0 => Sx::nil(),
+        1 => Sx::atom(&rand_bytes(rng, 1, 8)),
+        2 => Sx::list(&[Sx::atom(&rng.bytes(3)), Sx::nil(), Sx::int(rng.below(1000))]),
+        _ => Sx::pair(Sx::atom(&rng.bytes(32)), Sx::atom(&[7])),
+    }
+}
+
+fn op(o: u8) -> Sx {
+    Sx::atom(&[o])
+}
+
+/// conditions the top layer passes through untouched and that hold for any coin of the
+/// lineage; `budget` is what even outputs and fees may still consume
+fn free_condition(ctx: &Ctx, rng: &mut Rng, budget: &mut u64, full_ph: Option<&H>) -> Sx {
+    match rng.below(13) {
+        0 | 1 => {
+            let amount = match rng.below(4) {
+                0 => 0,
+                1 => 2.min(*budget & !1),
+                2 => *budget & !1,
+                _ => rng.below(*budget / 2 + 1) * 2,
+            };
+            *budget -= amount;
+            let mut items = vec![op(51), Sx::atom(&rng.bytes32()), Sx::int(amount)];
+            if rng.bool() {
+                items.push(Sx::list(&[Sx::atom(&rng.bytes32())]));
+            }
+            Sx::list(&items)
+        }
+        2 => Sx::list(&[op(60), Sx::atom(&rand_bytes(rng, 0, 40))]),
+        3 => Sx::list(&[op(62), Sx::atom(&rand_bytes(rng, 0, 40))]),
+        4 => Sx::list_term(&[op(1), junk(rng)], junk(rng)),
+        5 => Sx::list(&[op(81), Sx::int(rng.below(1000))]),
+        6 => Sx::list(&[op(83), Sx::int(rng.below(1000))]),
+        7 => Sx::list(&[op(if rng.bool() { 85 } else { 87 }), Sx::int(1_000_000 + rng.below(1_000_000))]),
+        8 => Sx::list(&[op(if rng.bool() { 80 } else { 82 }), Sx::int(rng.below(1000))]),
+        9 => {
+            let fee = if rng.bool() { 0 } else { rng.below(*budget + 1) };
+            *budget -= fee;
+            Sx::list(&[op(52), Sx::int(fee)])
+        }
+        10 => {
+            let pk = rng.pick(&ctx.keys.valid).clone();
+            let o = *rng.pick(&[44u8, 45, 46, 49]);
+            Sx::list(&[op(o), Sx::atom(&pk), Sx::atom(&rand_bytes(rng, 0, 24))])
+        }
+        11 => Sx::list(&[op(0x63), Sx::atom(&rand_bytes(rng, 0, 10))]),
+        _ => match full_ph {
+            Some(ph) => Sx::list(&[op(72), Sx::atom(ph)]),
+            None => Sx::list(&[op(1)]),
+        },
+    }
+}
+
+/// ingredients of a self-consistent scenario
+#[derive(Clone)]
+struct Base {
+    struct_mod_hash: H,
+    launcher_id: H,
+    launcher_ph: H,
+    inner: Sx,
+    inner_solution: Sx,
+    grandparent: H,
+    parent_amount: u64,
+    amount: u64,
+    new_grandparent: H,
+    new_parent_amount: u64,
+    new_amount: u64,
+    inner_kind: &'static str,
+}
+
+fn struct_sx(b: &Base) -> Sx {
+    Sx::pair(Sx::atom(&b.struct_mod_hash), Sx::pair(Sx::atom(&b.launcher_id), Sx::atom(&b.launcher_ph)))
+}
+
+fn lineage_solution(grandparent: &H, inner_hash: &H, parent_amount: u64, amount: u64, inner_solution: &Sx) -> Sx {
+    Sx::list(&[
+        Sx::list(&[Sx::atom(grandparent), Sx::atom(inner_hash), Sx::int(parent_amount)]),
+        Sx::int(amount),
+        inner_solution.clone(),
+    ])
+}
+
+/// Put a scenario together around `puzzle`. The parent coin is the one the puzzle itself
+/// would reconstruct from the proof: same struct, inner puzzle hash `lineage_inner_hash`.
+fn assemble(b: &Base, puzzle: Sx, lineage_inner_hash: &H) -> Scn {
+    let ph = facts(&puzzle).puzzle_hash;
+    let parent_ph = curry_hash(&b.struct_mod_hash, &[struct_sx(b).tree_hash(), *lineage_inner_hash]);
+    let parent = MC { parent: b.grandparent, ph: parent_ph, amount: b.parent_amount };
+    let coin = MC { parent: parent.id(), ph, amount: b.amount };
+    let new_parent = MC { parent: b.new_grandparent, ph, amount: b.new_parent_amount };
+    let new_coin = MC { parent: new_parent.id(), ph, amount: b.new_amount };
+    let solution = lineage_solution(&b.grandparent, lineage_inner_hash, b.parent_amount, b.amount, &b.inner_solution);
+    Scn { puzzle, solution, coin, new_coin, new_parent }
+}
+
+fn genuine_scenario(b: &Base) -> Scn {
+    let (m, _) = singleton_mod();
+    let puzzle = curry(&m, &[struct_sx(b), b.inner.clone()]);
+    assemble(b, puzzle, &b.inner.tree_hash())
+}
+
+/// amounts of the coins the spend is (re)based on, then outputs that every one of them can pay
+fn gen_base(ctx: &Ctx, rng: &mut Rng, chain: usize) -> (Base, Vec<u64>) {
+    let amount = odd_amount(rng);
+    let mut coin_amounts = vec![amount];
+    for _ in 0..chain {
+        // now and then rebase onto a coin of the same value (what a wallet normally does)
+        coin_amounts.push(if rng.chance(1, 4) { amount } else { odd_amount(rng) });
+    }
+    let min = *coin_amounts.iter().min().unwrap();
+    let odd_out = match rng.below(3) {
+        0 => 1,
+        1 => min,
+        _ => rng.below(min / 2 + 1) * 2 + 1,
+    };
+    let mut budget = min - odd_out;
+
+    let struct_mod_hash = SINGLETON_TOP_LAYER_V1_1_HASH;
+    let launcher_id = rng.bytes32();
+    // the launcher puzzle hash is not part of the lineage of a non-eve spend: mostly the standard one
+    let launcher_ph = if rng.chance(1, 8) { rng.bytes32() } else { SINGLETON_LAUNCHER_HASH };
+    let struct_hash = th_pair(&th_atom(&struct_mod_hash), &th_pair(&th_atom(&launcher_id), &th_atom(&launcher_ph)));
+
+    let inner_kind = *rng.pick(&["quoted", "quoted", "solution", "cons-first"]);
+    // inner puzzles whose hash does not depend on the conditions can re-create themselves
+    let fixed_inner: Option<Sx> = match inner_kind {
+        "solution" => Some(Sx::atom(&[1])),
+        _ => None,
+    };
+    let nfree = rng.usize(5);
+    let cons_rest: Vec<Sx> = if inner_kind == "cons-first" {
+        (0..nfree).map(|_| free_condition(ctx, rng, &mut budget, None)).collect()
+    } else {
+        vec![]
+    };
+    let cons_inner = Sx::list(&[op(4), op(2), Sx::pair(op(1), Sx::list(&cons_rest))]);
+    let own_inner_hash: Option<H> = match inner_kind {
+        "solution" => fixed_inner.as_ref().map(Sx::tree_hash),
+        "cons-first" => Some(cons_inner.tree_hash()),
+        _ => None,
+    };
+    let full_ph = own_inner_hash.map(|h| curry_hash(&struct_mod_hash, &[struct_hash, h]));
+    let next_inner_hash = match own_inner_hash {
+        Some(h) if rng.chance(2, 3) => h,
+        _ => rng.bytes32(),
+    };
+    // the one odd output; -113 is the top layer's "melt" marker (no child singleton)
+    let melt = rng.chance(1, 20);
+    let mut odd_items =
+        vec![op(51), Sx::atom(&next_inner_hash), if melt { Sx::atom(&[0x8f]) } else { Sx::int(odd_out) }];
+    if rng.bool() {
+        odd_items.push(Sx::list(&[Sx::atom(&rng.bytes32())]));
+    }
+    let odd_cc = Sx::list(&odd_items);
+
+    let (inner, inner_solution) = match inner_kind {
+        "cons-first" => (cons_inner, Sx::pair(odd_cc, junk(rng))),
+        _ => {
+            let mut conds: Vec<Sx> = (0..nfree)
+                .map(|_| free_condition(ctx, rng, &mut budget, if inner_kind == "solution" { full_ph.as_ref() } else { None }))
+                .collect();
+            conds.push(odd_cc);
+            rng.shuffle(&mut conds);
+            if inner_kind == "solution" {
+                (Sx::atom(&[1]), Sx::list(&conds))
+            } else {
+                (Sx::pair(op(1), Sx::list(&conds)), junk(rng))
+            }
+        }
+    };
+    let base = Base {
+        struct_mod_hash,
+        launcher_id,
+        launcher_ph,
+        inner,
+        inner_solution,
+        grandparent: rng.bytes32(),
+        parent_amount: odd_amount(rng),
+        amount,
+        new_grandparent: match rng.below(8) {
+            0 => [0; 32],
+            1 => [0xff; 32],
+            _ => rng.bytes32(),
+        },
+        new_parent_amount: odd_amount(rng),
+        new_amount: coin_amounts[1],
+        inner_kind,
+    };
+    (base, coin_amounts)
+}
+
+// ---------------------------------------------------------------------------------------
+// corruptions
+
+fn set_at(x: &Sx, path: &str, v: &Sx) -> Sx {
+    match path.chars().next() {
+        None => v.clone(),
+        Some(c) => match x.as_pair() {
+            None => x.clone(),
+            Some((f, r)) => {
+                if c == 'f' {
+                    Sx::pair(set_at(f, &path[1..], v), r.clone())
+                } else {
+                    Sx::pair(f.clone(), set_at(r, &path[1..], v))
+                }
+            }
+        },
+    }
+}
+
+const P_INNER_HASH: &str = "frf"; // (f (r (f solution)))
+
+/// a redundant zero byte in front of a minimal non-negative integer atom (`None` for zero,
+/// where the padded form is the canonical encoding of nothing else)
+fn padded(b: &[u8]) -> Option<Vec<u8>> {
+    if b.is_empty() || b[0] & 0x80 != 0 {
+        return None;
+    }
+    let mut v = vec![0u8];
+    v.extend_from_slice(b);
+    Some(v)
+}
+
+/// every single-field corruption of a genuine scenario, by name
+fn corruptions(rng: &mut Rng, b: &Base, g: &Scn) -> Vec<(&'static str, Scn)> {
+    let (m, _) = singleton_mod();
+    let inner_hash = b.inner.tree_hash();
+    let mut v: Vec<(&'static str, Scn)> = vec![];
+    let mut add = |name: &'static str, s: Scn| v.push((name, s));
+    let even = |a: u64| if a == u64::MAX || a & 2 == 0 { a - 1 } else { a + 1 };
+
+    // --- the three coins -------------------------------------------------------------
+    let mut s = g.clone();
+    s.coin.amount = even(g.coin.amount);
+    add("coin-amount-even", s);
+    let mut s = g.clone();
+    s.coin.amount = even(g.coin.amount);
+    s.solution = set_at(&g.solution, P_AMOUNT, &Sx::int(s.coin.amount));
+    add("coin-amount-even-solution-agrees", s);
+    let mut s = g.clone();
+    s.coin.amount = other_odd(rng, g.coin.amount);
+    add("coin-amount-other-odd", s);
+    let mut s = g.clone();
+    s.new_coin.amount = even(g.new_coin.amount);
+    add("new-coin-amount-even", s);
+    let mut s = g.clone();
+    s.new_parent.amount = even(g.new_parent.amount);
+    s.new_coin.parent = s.new_parent.id();
+    add("new-parent-amount-even", s);
+    let mut s = g.clone();
+    s.coin.ph = flip_bit(rng, &g.coin.ph);
+    add("coin-puzzle-hash", s);
+    let mut s = g.clone();
+    s.new_parent.ph = flip_bit(rng, &g.new_parent.ph);
+    s.new_coin.parent = s.new_parent.id();
+    add("new-parent-puzzle-hash", s);
+    let mut s = g.clone();
+    s.new_coin.ph = flip_bit(rng, &g.new_coin.ph);
+    add("new-coin-puzzle-hash", s);
+    let mut s = g.clone();
+    let other = rng.bytes32();
+    s.coin.ph = other;
+    s.new_parent.ph = other;
+    s.new_coin.ph = other;
+    s.new_coin.parent = s.new_parent.id();
+    add("all-coins-other-puzzle-hash", s);
+    let mut s = g.clone();
+    s.new_coin.parent = if rng.bool() { flip_bit(rng, &g.new_coin.parent) } else { g.new_parent.parent };
+    add("new-coin-parent", s);
+    let mut s = g.clone();
+    s.new_parent.parent = flip_bit(rng, &g.new_parent.parent);
+    add("new-parent-parent", s);
+    let mut s = g.clone();
+    s.new_parent.amount = other_odd(rng, g.new_parent.amount);
+    add("new-parent-amount-other-odd", s);
+    let mut s = g.clone();
+    s.coin.parent = flip_bit(rng, &g.coin.parent);
+    add("coin-parent", s);
+
+    // --- the solution ----------------------------------------------------------------
+    let mut s = g.clone();
+    s.solution = set_at(&g.solution, P_AMOUNT, &Sx::int(other_odd(rng, g.coin.amount)));
+    add("solution-amount", s);
+    let mut s = g.clone();
+    s.solution = set_at(&g.solution, P_PARENT_PARENT, &Sx::atom(&flip_bit(rng, &b.grandparent)));
+    add("lineage-parent-parent-bit", s);
+    let mut s = g.clone();
+    s.solution = set_at(&g.solution, P_PARENT_AMOUNT, &Sx::int(other_odd(rng, b.parent_amount)));
+    add("lineage-parent-amount", s);
+    let mut s = g.clone();
+    let h = if rng.bool() { flip_bit(rng, &inner_hash) } else { rng.bytes32() };
+    s.solution = set_at(&g.solution, P_INNER_HASH, &Sx::atom(&h));
+    add("lineage-inner-hash", s);
+    // a perfectly valid spend whose parent had another inner puzzle: not fast-forwardable
+    let puzzle = g.puzzle.clone();
+    add("parent-had-different-inner-puzzle", assemble(b, puzzle, &rng.bytes32()));
+    // integers with a redundant leading zero: the puzzle hashes / asserts the bytes as they are,
+    // so the spend as given does not validate against `coin`
+    if let Some(p) = padded(&minimal_be_u64(b.parent_amount)).filter(|_| JUDGE_NONCANONICAL_INTS) {
+        let mut s = g.clone();
+        s.solution = set_at(&g.solution, P_PARENT_AMOUNT, &Sx::atom(&p));
+        add("lineage-parent-amount-leading-zero", s);
+    }
+    if let Some(p) = padded(&minimal_be_u64(g.coin.amount)).filter(|_| JUDGE_NONCANONICAL_INTS) {
+        let mut s = g.clone();
+        s.solution = set_at(&g.solution, P_AMOUNT, &Sx::atom(&p));
+        add("solution-amount-leading-zero", s);
+    }
+    // eve proof of a coherent eve spend: the launcher coin really is the parent
+    {
+        let launcher_coin = MC { parent: b.grandparent, ph: b.launcher_ph, amount: b.parent_amount };
+        let mut eb = b.clone();
+        eb.launcher_id = launcher_coin.id();
+        let puzzle = curry(&m, &[struct_sx(&eb), eb.inner.clone()]);
+        let mut s = assemble(&eb, puzzle, &inner_hash);
+        s.coin.parent = eb.launcher_id;
+        s.solution = Sx::list(&[
+            Sx::list(&[Sx::atom(&b.grandparent), Sx::int(b.parent_amount)]),
+            Sx::int(b.amount),
+            b.inner_solution.clone(),
+        ]);
+        add("eve-proof", s);
+    }
+    let mut s = g.clone();
+    s.solution = set_at(&g.solution, "f", &Sx::list(&[Sx::atom(&b.grandparent), Sx::int(b.parent_amount)]));
+    add("proof-two-elements", s);
+    let mut s = g.clone();
+    s.solution = match rng.below(3) {
+        0 => Sx::nil(),
+        1 => Sx::atom(&rand_bytes(rng, 1, 40)),
+        _ => Sx::atom(&g.solution.serialize()),
+    };
+    add("solution-atom", s);
+    let mut s = g.clone();
+    let (items, _) = g.solution.unlist();
+    let keep = 1 + rng.usize(2);
+    s.solution = Sx::list(&items[..keep].iter().map(|x| (*x).clone()).collect::<Vec<_>>());
+    add("solution-too-short", s);
+    let mut s = g.clone();
+    s.solution = set_at(&g.solution, "f", &Sx::atom(&b.grandparent));
+    add("proof-atom", s);
+
+    // --- the puzzle (everything else rebuilt around it, so only the puzzle is wrong) ------
+    {
+        let mut fb = b.clone();
+        fb.struct_mod_hash = if rng.bool() { flip_bit(rng, &b.struct_mod_hash) } else { rng.bytes32() };
+        let puzzle = curry(&m, &[struct_sx(&fb), fb.inner.clone()]);
+        add("struct-mod-hash", assemble(&fb, puzzle, &inner_hash));
+        let mut s = g.clone();
+        s.puzzle = curry(&m, &[struct_sx(&fb), fb.inner.clone()]);
+        add("struct-mod-hash-only", s);
+    }
+    {
+        // a curried program of the right shape whose mod is something else
+        let other_mod = match rng.below(3) {
+            0 => Sx::atom(&[1]),
+            1 => Sx::pair(op(1), Sx::nil()),
+            // the real mod with its leading operator changed
+            _ => set_at(&m, "f", &op(3)),
+        };
+        let puzzle = curry(&other_mod, &[struct_sx(b), b.inner.clone()]);
+        add("other-mod", assemble(b, puzzle, &inner_hash));
+    }
+    add("curry-extra-argument", assemble(b, curry(&m, &[struct_sx(b), b.inner.clone(), junk(rng)]), &inner_hash));
+    add("curry-one-argument", assemble(b, curry(&m, &[struct_sx(b)]), &inner_hash));
+    let not_curried = match rng.below(4) {
+        0 => m.clone(),
+        1 => Sx::atom(&rand_bytes(rng, 0, 33)),
+        2 => Sx::pair(op(1), Sx::list(&[Sx::list(&[op(51), Sx::atom(&rng.bytes32()), Sx::int(1)])])),
+        // the curried puzzle wrapped once more: runs identically, is not a curried singleton
+        _ => Sx::list(&[op(2), Sx::pair(op(1), g.puzzle.clone()), op(1)]),
+    };
+    add("puzzle-not-curried", assemble(b, not_curried, &inner_hash));
+    {
+        // struct whose launcher id is not 32 bytes
+        let st = Sx::pair(
+            Sx::atom(&b.struct_mod_hash),
+            Sx::pair(Sx::atom(&b.launcher_id[..31]), Sx::atom(&b.launcher_ph)),
+        );
+        let mut s = g.clone();
+        s.puzzle = curry(&m, &[st, b.inner.clone()]);
+        let ph = facts(&s.puzzle).puzzle_hash;
+        s.coin.ph = ph;
+        s.new_parent.ph = ph;
+        s.new_coin.ph = ph;
+        s.new_coin.parent = s.new_parent.id();
+        add("struct-launcher-id-31-bytes", s);
+    }
+    v
+}
+
+/// random combinations of edits, some of them compensating each other (still genuine)
+fn combo(rng: &mut Rng, b: &Base, g: &Scn) -> Scn {
+    let mut s = g.clone();
+    let n = 2 + rng.usize(3);
+    for _ in 0..n {
+        match rng.below(14) {
+            0 => s.coin.amount = if rng.chance(1, 4) { s.coin.amount ^ 1 } else { other_odd(rng, s.coin.amount) },
+            1 => s.solution = set_at(&s.solution, P_AMOUNT, &Sx::int(s.coin.amount)),
+            2 => s.solution = set_at(&s.solution, P_AMOUNT, &Sx::int(odd_amount(rng))),
+            3 => s.solution = set_at(&s.solution, P_PARENT_PARENT, &Sx::atom(&rng.bytes32())),
+            4 => s.solution = set_at(&s.solution, P_PARENT_AMOUNT, &Sx::int(odd_amount(rng))),
+            5 => s.coin.parent = flip_bit(rng, &s.coin.parent),
+            6 => {
+                s.new_parent.amount =
+                    if rng.chance(1, 4) { s.new_parent.amount ^ 1 } else { other_odd(rng, s.new_parent.amount) }
+            }
+            7 => s.new_parent.parent = rng.bytes32(),
+            8 => s.new_coin.parent = s.new_parent.id(),
+            9 => {
+                s.new_coin.amount = if rng.chance(1, 4) { s.new_coin.amount ^ 1 } else { other_odd(rng, s.new_coin.amount) }
+            }
+            10 => match rng.below(3) {
+                0 => s.coin.ph = flip_bit(rng, &s.coin.ph),
+                1 => s.new_parent.ph = flip_bit(rng, &s.new_parent.ph),
+                _ => s.new_coin.ph = flip_bit(rng, &s.new_coin.ph),
+            },
+            11 => s.solution = set_at(&s.solution, P_INNER_HASH, &Sx::atom(&rng.bytes32())),
+            12 => {
+                // the coin a different sibling of the same parent, the new coin the old one
+                s.new_parent = MC { parent: b.grandparent, ph: g.coin.ph, amount: b.parent_amount };
+                s.new_coin.parent = s.new_parent.id();
+            }
+            _ => {
+                // re-derive the coin's parent from whatever the proof now says
+                let proof: Vec<Option<Vec<u8>>> =
+                    [P_PARENT_PARENT, P_INNER_HASH, P_PARENT_AMOUNT].iter().map(|p| at(&s.solution, p).and_then(Sx::as_atom).map(<[u8]>::to_vec)).collect();
+                if let (Some(pp), Some(ih), Some(pa)) = (&proof[0], &proof[1], &proof[2]) {
+                    if let Ok(ih) = <[u8; 32]>::try_from(&ih[..]) {
+                        let parent_ph = curry_hash(&b.struct_mod_hash, &[struct_sx(b).tree_hash(), ih]);
+                        s.coin.parent = sha256(&[pp, &parent_ph, pa]);
+                    }
+                }
+            }
+        }
+    }
+    if rng.bool() {
+        // bring the dependent fields back in line: most of these are genuine again
+        s.solution = set_at(&s.solution, P_AMOUNT, &Sx::int(s.coin.amount));
+        s.new_coin.parent = s.new_parent.id();
+        if let (Some(pp), Some(ih), Some(pa)) = (
+            at(&s.solution, P_PARENT_PARENT).and_then(Sx::as_atom),
+            at(&s.solution, P_INNER_HASH).and_then(arr32),
+            at(&s.solution, P_PARENT_AMOUNT).and_then(Sx::as_atom),
+        ) {
+            let parent_ph = curry_hash(&b.struct_mod_hash, &[struct_sx(b).tree_hash(), ih]);
+            s.coin.parent = sha256(&[pp, &parent_ph, pa]);
+        }
+    }
+    s
+}
+
+/// genuine inputs of a looser shape than a wallet produces (the puzzle ignores what follows
+/// the fields it reads)
+fn loose_shapes(rng: &mut Rng, g: &Scn) -> Vec<(&'static str, Scn)> {
+    let mut v = vec![];
+    let (items, _) = g.solution.unlist();
+    let mut more: Vec<Sx> = items.iter().map(|x| (*x).clone()).collect();
+    more.push(junk(rng));
+    let mut s = g.clone();
+    s.solution = Sx::list(&more);
+    v.push(("loose:solution-trailing-field", s));
+    let mut s = g.clone();
+    s.solution = Sx::list_term(&more[..3], Sx::atom(&[0x2a]));
+    v.push(("loose:solution-improper-terminator", s));
+    if let Some(proof) = g.solution.first() {
+        let (pitems, _) = proof.unlist();
+        let mut pm: Vec<Sx> = pitems.iter().map(|x| (*x).clone()).collect();
+        pm.push(Sx::atom(&rng.bytes(2)));
+        let mut s = g.clone();
+        s.solution = set_at(&g.solution, "f", &Sx::list(&pm));
+        v.push(("loose:proof-trailing-field", s));
+    }
+    v
+}
+
+// ---------------------------------------------------------------------------------------
+// entry points
+
+/// One generated singleton scenario: the genuine fast-forward (a chain of 1–3 rebases), every
+/// single-field corruption, and random combinations.
+pub fn case(ctx: &Ctx, rng: &mut Rng, rep: &mut Report, thorough: bool) {
+    let (_, mod_hash) = singleton_mod();
+    if mod_hash != SINGLETON_TOP_LAYER_V1_1_HASH {
+        rep.harness_error("model tree hash of SINGLETON_TOP_LAYER_V1_1 differs from SINGLETON_TOP_LAYER_V1_1_HASH");
+        return;
+    }
+    let chain = 1 + rng.weighted(&[5, 3, 2]);
+    let (base, coin_amounts) = gen_base(ctx, rng, chain);
+    let g = genuine_scenario(&base);
+    rep.count("cases");
+    rep.count(&format!("inner-kind:{}", base.inner_kind));
+
+    // the generator's own promise, checked with the full (uncached, uncomposed) model hash
+    let f = facts(&g.puzzle);
+    if f.puzzle_hash != g.puzzle.tree_hash() {
+        rep.harness_error("curry_hash disagrees with Sx::tree_hash on the curried puzzle");
+        return;
+    }
+    if let Some(r) = not_genuine(&g, &f) {
+        rep.harness_error(&format!("generated scenario is not genuine by the harness's own predicate: {r}"));
+        return;
+    }
+
+    // generation 0 and the chain
+    let mut cur = g.clone();
+    let mut achieved = 0;
+    for step in 0..chain {
+        let kind = if step == 0 { "genuine" } else { "genuine-chained" };
+        let Some(new_solution) = judge(ctx, rng, rep, &cur, kind, true) else {
+            break;
+        };
+        achieved += 1;
+        if step + 1 == chain {
+            break;
+        }
+        let ph = cur.coin.ph;
+        let new_parent = MC { parent: rng.bytes32(), ph, amount: odd_amount(rng) };
+        let new_coin = MC { parent: new_parent.id(), ph, amount: coin_amounts[step + 2] };
+        cur = Scn { puzzle: cur.puzzle.clone(), solution: new_solution, coin: cur.new_coin.clone(), new_coin, new_parent };
+    }
+    rep.count(&format!("chain_len:{achieved}"));
+    rep.cell(&format!("chain:{achieved}:{}", base.inner_kind));
+
+    // refusals
+    for (name, s) in corruptions(rng, &base, &g) {
+        // calibration of the predicate against the interpreter for the lineage-related kinds:
+        // what the predicate calls non-genuine for these must not be a valid spend of `coin`
+        let lineage_kind = matches!(
+            name,
+            "coin-amount-other-odd"
+                | "coin-parent"
+                | "solution-amount"
+                | "lineage-parent-parent-bit"
+                | "lineage-parent-amount"
+                | "lineage-inner-hash"
+                | "lineage-parent-amount-leading-zero"
+                | "solution-amount-leading-zero"
+        );
+        if lineage_kind && rng.chance(1, 4) {
+            if let Spend::Accepted { .. } = run_spend(ctx, &s.puzzle, &s.solution, &s.coin) {
+                rep.harness_error(&format!("corruption {name} left a spend that validates against the coin"));
+                continue;
+            }
+            rep.count("calibration:lineage-corruption-spend-invalid");
+        }
+        // (an inner solution asserting the full puzzle hash pins the launcher id the eve variant replaces)
+        let pinned = name == "eve-proof" && base.inner_solution.unlist().0.iter().any(|c| c.first().is_some_and(|o| is_byte(o, 72)));
+        if matches!(name, "parent-had-different-inner-puzzle" | "eve-proof") && !pinned && rng.chance(1, 4) {
+            // these two are valid spends that are merely not fast-forwardable
+            match run_spend(ctx, &s.puzzle, &s.solution, &s.coin) {
+                Spend::Accepted { .. } => rep.count(&format!("calibration:{name}-spend-valid")),
+                _ => {
+                    rep.harness_error(&format!("scenario {name} should be a valid spend and is not"));
+                    continue;
+                }
+            }
+        }
+        judge(ctx, rng, rep, &s, name, false);
+    }
+
+    // genuine but loosely shaped
+    if JUDGE_LOOSE_SHAPES {
+        for (name, s) in loose_shapes(rng, &g) {
+            judge(ctx, rng, rep, &s, name, false);
+        }
+    }
+
+    // random combinations, judged by the predicate in both directions
+    let combos = if thorough { 8 } else { 4 };
+    for _ in 0..combos {
+        let s = combo(rng, &base, &g);
+        let genuine = not_genuine(&s, &facts(&s.puzzle)).is_none();
+        rep.count(if genuine { "combo:genuine" } else { "combo:non-genuine" });
+        judge(ctx, rng, rep, &s, if genuine { "combo-genuine" } else { "combo" }, false);
+    }
+}
+
+/// The two recorded singleton spends of /repo/ff-tests, rebased the way the repository's own
+/// test does, under the genuine-case oracle.
+pub fn recorded(ctx: &Ctx, rep: &mut Report) {
+    let mut rng = Rng::new(0xc19f);
+    for name in ["e3c0", "bb13"] {
+        let path = format!("/repo/ff-tests/{name}.spend");
+        let bytes = match std::fs::read(&path) {
+            Ok(b) => b,
+            Err(e) => {
+                rep.harness_error(&format!("cannot read {path}: {e}"));
+                continue;
+            }
+        };
+        let spend = match CoinSpend::from_bytes(&bytes) {
+            Ok(s) => s,
+            Err(e) => {
+                rep.harness_error(&format!("cannot parse {path}: {e:?}"));
+                continue;
+            }
+        };
+        let mut a = Allocator::new();
+        let (Ok(p), Ok(s)) = (
+            clvmr::serde::node_from_bytes_backrefs(&mut a, spend.puzzle_reveal.as_slice()),
+            clvmr::serde::node_from_bytes_backrefs(&mut a, spend.solution.as_slice()),
+        ) else {
+            rep.harness_error(&format!("cannot deserialize puzzle/solution of {path}"));
+            continue;
+        };
+        let puzzle = Sx::from_node(&a, p);
+        let solution = Sx::from_node(&a, s);
+        let coin = MC {
+            parent: spend.coin.parent_coin_info.to_bytes(),
+            ph: spend.coin.puzzle_hash.to_bytes(),
+            amount: spend.coin.amount,
+        };
+        let ph = puzzle.tree_hash();
+        if ph != coin.ph {
+            rep.harness_error(&format!("{path}: puzzle reveal does not hash to the coin's puzzle hash"));
+            continue;
+        }
+        rep.count("recorded:spends");
+        for new_grandparent in [[0xab; 32], [0; 32], [0xff; 32]] {
+            for new_amount in [0u64, 1, 3, 5] {
+                for prev_amount in [0u64, 1, 3, 5] {
+                    let new_parent = MC {
+                        parent: new_grandparent,
+                        ph,
+                        amount: if prev_amount == 0 { coin.amount } else { prev_amount },
+                    };
+                    let new_coin = MC {
+                        parent: new_parent.id(),
+                        ph,
+                        amount: if new_amount == 0 { coin.amount } else { new_amount },
+                    };
+                    let s = Scn {
+                        puzzle: puzzle.clone(),
+                        solution: solution.clone(),
+                        coin: coin.clone(),
+                        new_coin,
+                        new_parent,
+                    };
+                    if let Some(r) = not_genuine(&s, &facts(&s.puzzle)) {
+                        rep.harness_error(&format!("{path}: recorded spend not genuine by the harness's predicate: {r}"));
+                        continue;
+                    }
+                    if judge(ctx, &mut rng, rep, &s, "recorded", true).is_some() {
+                        rep.count("recorded:fully-checked");
+                    }
+                }
+            }
+        }
+    }
 }
